@@ -450,7 +450,7 @@ pub fn run(ctx: &mut Ctx) {
     }
     ctx.enumerate("from_until", ctor, true, check_ctor);
 
-    let n = ctx.tier.pick(3000, 60000);
+    let n = ctx.tier.pick(30000, 400000);
     let strat = (
         proptest::collection::vec(version_strategy(), 1..5),
         any::<u8>(),
@@ -471,7 +471,7 @@ pub fn run(ctx: &mut Ctx) {
         let server = start_server(api, DynCtx::default(), Default::default(), Some(policy)).expect("server");
         Live { addr: server.local_addr(), server }
     };
-    let n = ctx.tier.pick(2000, 50000);
+    let n = ctx.tier.pick(15000, 200000);
     {
         let rt = tokio::runtime::Builder::new_current_thread().enable_all().build().unwrap();
         ctx.phase("header_live", n, header_case_strategy(), |c, st| check_header(&live, &rt, c, st));
